@@ -35,7 +35,7 @@ RULE = (
 ASSUMPTIONS = ["record boundaries / tag and length positions come from the spec parser in vf/wire.py",
                "the reference decoder decides which wire-type mismatches count as 'kept as unknown field'"]
 
-NAMES = ["Scalars", "Optionals", "Repeats", "Maps", "Oneofs", "Wrappers", "Times", "Tags", "Rec", "Leaf", "Words", "Holder"]
+NAMES = ["Scalars", "Optionals", "Repeats", "Maps", "Oneofs", "Wrappers", "Times", "Tags", "Rec", "Leaf", "Words", "Holder", "Empty"]
 
 
 def type_ok(hint, v, depth=0) -> typing.Optional[str]:
@@ -224,6 +224,8 @@ def targets(ctx):
         def add(cl, where, d):
             fails.append(Failure(cl, f"{kind}|{cl}|{where}", f"case={case!r:.500} :: {d}"))
 
+        if not mi.fields and kind not in ("field0", "badwt", "varint_overflow", "corrupt"):
+            return Eval([], discard="fault kind needs a message type with fields")
         if kind == "corrupt":
             # positions of tag and length bytes
             pos = []
@@ -307,6 +309,71 @@ def targets(ctx):
                 except Exception:  # noqa: BLE001 - already reported by validity()
                     pass
             labs.append(f"mismatch:{fi.kind}->wt{wt}")
+            return Eval(fails, nontrivial=True, labels=labs)
+
+        if kind == "varint_overflow":
+            # a ten-byte varint whose last byte carries bits beyond the 64th (02..7f instead of 00 / 01) as the VALUE of a
+            # varint field - singular, an element of a packed list, or unknown: whatever the decoder makes of it (the
+            # reference rejects it; masking or keeping the big integer are both "a value of the declared type"), the
+            # message it returns must be encodable again
+            def big():
+                return bytes([0x80 | ((fault["v"] >> (7 * j)) & 0x7F) for j in range(9)]) + bytes([2 + fault["top"] % 126])
+
+            vfields = [f for f in mi.fields if f.card in ("single", "optional", "repeated") and f.type in ("int32", "int64", "uint32", "uint64", "sint32", "sint64", "bool", "enum")]
+            if vfields and fault["where"] % 4 != 3:
+                fi = vfields[fault["field"] % len(vfields)]
+                if fi.card == "repeated" and fault["where"] % 4 == 1:
+                    rec = wire.tag(fi.number, 2) + wire.enc_varint(11) + b"\x01" + big()  # packed: [1, <overflowing>]
+                    where = f"packed|{fi.type}"
+                else:
+                    rec = wire.tag(fi.number, 0) + big()
+                    where = f"{fi.card}|{fi.type}"
+            else:
+                used = {f.number for f in mi.fields}
+                rec = wire.tag([n for n in (9999, 19, 1000, 77) if n not in used][0], 0) + big()
+                where = "unknown_field"
+            at = fault["pos"] % (len(recs) + 1)
+            bad = b"".join(r.raw for r in recs[:at]) + rec + b"".join(r.raw for r in recs[at:])
+            entry = ["parse", "FromString", "load", "load_size", "load_delimited"][fault.get("entry", 0) % 5]
+            status, res = decode(name, bad, entry)
+            tally(name, bad, status)
+            for cl, w2, d in validity(name, bad, status, res, "varint_overflow"):
+                add(cl, f"{where}|{w2}", d)
+            if status == "ok":
+                try:
+                    if len(res) != len(bytes(res)):
+                        add("returned_message_len_differs", where, f"len={len(res)} bytes={len(bytes(res))} input={bad.hex()[:160]}")
+                except Exception as e:  # noqa: BLE001
+                    add("returned_message_not_sizable", f"{where}|{type(e).__name__}", f"{e}; input={bad.hex()[:160]}")
+            labs += [f"varint_overflow:{where.split('|')[0]}", f"bp:{status}"]
+            return Eval(fails, nontrivial=True, labels=labs)
+
+        if kind == "inner_invalid":
+            # a well-formed outer LEN record of a message-typed field (also of a type WITHOUT fields) whose payload holds
+            # something no message can contain: field number 0, wire type 6 / 7, a stray end-group marker, a record cut
+            # short by the end of the payload.  Judged where the reference rejects the input too.
+            mfields = [f for f in mi.fields if f.card in ("single", "optional", "repeated") and f.type == "message" and f.wkt is None]
+            empties = [f for f in mfields if not schema.msg(f.msg).fields]
+            if not mfields:
+                return Eval([], discard="no message-typed field")
+            fi = (empties if empties and fault["prefer_fieldless"] else mfields)[fault["field"] % len(empties if empties and fault["prefer_fieldless"] else mfields)]
+            sub = schema.msg(fi.msg)
+            own = b"".join(r.payload for r in recs if r.number == fi.number and r.wt == 2)[:0]  # (content of its own is not needed)
+            junk = [wire.tag(0, 0) + b"\x01", wire.tag(0, 2) + b"\x01a", wire.tag(3, 6), wire.tag(1, 7), wire.tag(5, 4), b"\x08\x80", b"\x12\x05ab", b"\x0d\x01\x02",
+                    wire.tag(7, 3), b"\x80"][fault["what"] % 10]
+            lead = wire.make_record(9999, 0, 5).raw if fault["lead"] else b""
+            payload = own + lead + junk
+            rec = wire.make_record(fi.number, 2, payload).raw
+            at = fault["pos"] % (len(recs) + 1)
+            bad = b"".join(r.raw for r in recs[:at]) + rec + b"".join(r.raw for r in recs[at:])
+            labs.append(f"inner_invalid:{'fieldless' if not sub.fields else 'with_fields'}")
+            if ref_accepts(name, bad):
+                return Eval([], discard="reference accepts this inner payload", labels=labs)
+            entry = ["parse", "FromString", "load", "load_size", "load_delimited"][fault.get("entry", 0) % 5]
+            status, res = decode(name, bad, entry)
+            tally(name, bad, status)
+            if status == "ok":
+                add("invalid_inner_payload_accepted", f"{'fieldless' if not sub.fields else 'with_fields'}|what{fault['what'] % 10}", f"{fi.name} payload={payload.hex()} input={bad.hex()[:200]}")
             return Eval(fails, nontrivial=True, labels=labs)
 
         if kind == "inner_truncation":
@@ -528,6 +595,8 @@ def targets(ctx):
         st.fixed_dictionaries({"kind": st.just("group"), "field": st.integers(0, 40), "known_number": st.booleans(), "n_inner": st.integers(0, 5), "pos": st.integers(0, 20), "entry": st.integers(0, 4),
                                "nest": st.sampled_from([0, 0, 1, 1, 2]), "unterminated": st.sampled_from([False, False, True])}),
         st.fixed_dictionaries({"kind": st.just("inner_truncation"), "field": st.integers(0, 40), "pos": st.integers(0, 200)}),
+        st.fixed_dictionaries({"kind": st.just("varint_overflow"), "field": st.integers(0, 40), "where": st.integers(0, 3), "v": st.integers(0, 2**63 - 1), "top": st.integers(0, 125), "pos": st.integers(0, 20), "entry": st.integers(0, 4)}),
+        st.fixed_dictionaries({"kind": st.just("inner_invalid"), "field": st.integers(0, 40), "what": st.integers(0, 9), "lead": st.booleans(), "prefer_fieldless": st.booleans(), "pos": st.integers(0, 20), "entry": st.integers(0, 4)}),
         st.fixed_dictionaries({"kind": st.just("huge_tag"), "field": st.integers(0, 40), "k": st.integers(0, 5), "own_payload": st.booleans(), "pos": st.integers(0, 20), "entry": st.integers(0, 4)}),
         st.fixed_dictionaries({"kind": st.just("bad_utf8"), "field": st.integers(0, 40), "what": st.integers(0, 7), "keep_prefix": st.booleans(), "entry": st.integers(0, 4)}),
         st.fixed_dictionaries({"kind": st.just("bad_in_group"), "what": st.integers(0, 5), "lead": st.booleans(), "nest": st.booleans(), "pos": st.integers(0, 20), "entry": st.integers(0, 4)}),
